@@ -37,6 +37,7 @@ type Gen struct {
 
 	sent     [][]byte // MessageSent payloads observed (candidates for replacement)
 	autoDump bool
+	simRate  float64 // share of transactions that are simulated (on a discarded branch) right before being delivered
 	capture  *[]Op // when set, ops are collected instead of executed (used by the crash scenario)
 	stats    map[string]int
 }
@@ -52,7 +53,7 @@ func hx(b []byte) string { return hex.EncodeToString(b) }
 func hs(s string) string { return hex.EncodeToString([]byte(s)) }
 
 func NewGen(seed int64, ops, obs *bufio.Writer) *Gen {
-	g := &Gen{rng: rand.New(rand.NewSource(seed)), s: &Session{}, ops: ops, obs: obs, autoDump: true, stats: map[string]int{}}
+	g := &Gen{rng: rand.New(rand.NewSource(seed)), s: &Session{}, ops: ops, obs: obs, autoDump: true, simRate: 0.1, stats: map[string]int{}}
 	for i := 0; i < 6; i++ {
 		h := sha256.Sum256([]byte(fmt.Sprintf("acct-%d", i)))
 		raw := h[:20]
@@ -112,6 +113,19 @@ func (g *Gen) emit(op Op) string {
 func (g *Gen) tx(ty string, kv *KV) string {
 	if kv.get("faults") == "" {
 		kv.set("faults", "-")
+	}
+	if g.simRate > 0 && g.chance(g.simRate) {
+		// the same message simulated first (as every wallet does to estimate gas): the branch is discarded, so the
+		// delivery that follows must behave exactly as if the simulation had never run ...
+		g.emit(Op{Kind: "sim", Sub: ty, KV: kv})
+		if g.chance(0.4) {
+			// ... and so must everything else when the delivery never follows (the user gave up, or this was the first
+			// message of a transaction whose second message failed)
+			if g.autoDump {
+				g.emit(Op{Kind: "dump", KV: newKV()})
+			}
+			return "out=discarded"
+		}
 	}
 	o := g.emit(Op{Kind: "tx", Sub: ty, KV: kv})
 	if g.autoDump {
